@@ -81,7 +81,7 @@ class Run:
     def finish(self):
         for rid in self.order:
             r = self.rules[rid]
-            if r['matched'] < r['floor']:
+            if r['matched'] < r['floor'] and r['violations'] == 0:
                 raise AnalysisBroken('%s: matched %d instances, floor is %d (rule would pass vacuously): %s'
                                      % (rid, r['matched'], r['floor'], r['text']))
         known = [k for k in load_known() if k.get('property') == self.prop and not k.get('fixed')]
